@@ -233,6 +233,21 @@ def run_unit(u, keep=False, mutant=None, timeout=None, verbose=False, trace=Fals
                     o['trace'] = r['trace']
             obs.append(o)
         res['obligations'] = obs
+        if trace:
+            keep_l = []
+            on = False
+            for ln in out.splitlines():
+                if ln.startswith('Trace for '):
+                    on = True
+                    keep_l.append(ln)
+                    continue
+                if on and ln.startswith('  ') and '=' in ln and not re.match(r'\s+(__CPROVER|tmp_|return_value___CPROVER|write_set|car|obj_set|idx|elem|max_|dfcc|__caller|__write)', ln):
+                    keep_l.append(ln.split(' (')[0][:200])
+                if on and ln.startswith('Violated property'):
+                    keep_l.append(ln)
+                if len(keep_l) > 400:
+                    break
+            res['trace_excerpt'] = '\n'.join(keep_l)
         if not obs:
             res['reason'] = 'vacuous: zero obligations generated'
             return res
